@@ -272,6 +272,30 @@ def check(ctx, need):
 
     # ------------------------------------------------------------ R-C13-4
     ctx.rule('R-C13-4', 'T1/T2 + impl facts', 'one result per submission: validation precedes the channel send; a failed send produces a result; a result sender dropped unsent resolves its receiver')
+    # ---- added after the mutation sweep: the result slot of the threaded client (one writer, blocking and polling readers)
+    sa = find_one(F, 'client::synchronous::SyncResultSender::<T>::apply') or find_one(F, 'SyncResultSender::apply')
+    rr = find_one(F, 'client::synchronous::SyncResultReceiver::<T>::recv') or find_one(F, 'SyncResultReceiver::recv')
+    tr = find_one(F, 'client::synchronous::SyncResultReceiver::<T>::try_recv') or find_one(F, 'SyncResultReceiver::try_recv')
+    if 'threaded' in need:
+        ctx.ob(sa is not None and rr is not None and tr is not None, 'result slot bodies found', 'slot|present')
+    if sa is not None and rr is not None and tr is not None:
+        ctx.touch(sa, rr, tr)
+        SOME, NONE = [r'^Deref::deref\(current_value\) is Some$'], [r'^Deref::deref\(current_value\) is None$']
+        st_ = [i for (i, j, s_) in sa.stmts() if s_['k'] == 'assign' and s_['lhs']['p'] and show(sa.place_expr(s_['lhs'])) == 'DerefMut::deref_mut(current_value)' and show(sa.rvalue_expr(s_['rv'], i)) == 'Option::Some{0: value}']
+        na_ = sa.calls('Condvar::notify_all')
+        ok = len(st_) == 1 and guarded_any(sa, st_[0], NONE) and len(na_) == 1 and must_pass(sa, st_[0], [na_[0].bb])[0]
+        es_ = prims.edge_nodes_matching(sa, NONE)
+        ok = ok and bool(es_) and all(st_[0] in sa.reach([e_]) and not (set(sa.reach([e_], avoid=st_)) & set(sa.exits())) for e_ in es_)
+        ctx.ob(ok, 'apply stores the value whenever the slot is empty and wakes every waiter afterwards', 'slot|apply', loc=sa.loc())
+        wt_ = rr.calls('Condvar::wait')
+        tk_ = [c for c in rr.calls('Option::take', 'take')]
+        ok = len(wt_) == 1 and guarded_any(rr, wt_[0].bb, NONE) and wt_[0].bb in rr.reach(list(rr.graph()[0][wt_[0].bb])) and len(tk_) == 1 and guarded_any(rr, tk_[0].bb, SOME)
+        rv_ = [show(e_) for b_, e_ in prims.ret_variants(rr)]
+        ok = ok and rv_ == ['Option::unwrap(Option::take(DerefMut::deref_mut(current_value)))']
+        ctx.ob(ok, 'recv waits (in a loop) exactly while the slot is empty and then takes the value', 'slot|recv', loc=rr.loc())
+        rows_ = sorted((show(e_), tuple(g for g in prims.guard_strs_plain(tr, b_))) for b_, e_ in prims.ret_variants(tr))
+        ctx.ob(rows_ == [('Option::None{}', ('Deref::deref(current_value) is None',)), ('Option::take(DerefMut::deref_mut(current_value))', ('Deref::deref(current_value) is Some',))],
+               'try_recv answers None for an empty slot and takes the value otherwise (%s)' % [r_[0] for r_ in rows_], 'slot|try-recv', loc=tr.loc())
     subs = []
     for v in F.all_fns():
         p = norm(v.path)
